@@ -122,6 +122,16 @@ class Interp(Run, StmtMixin, ExprMixin, CallMixin, BuiltinMixin, LoopMixin, Spec
 
     # ------------------------------------------------------------ solving
     def solve(self, ob):
+        if ob.kind == "CANARY":
+            # a canary only has to be NOT provable: short budget, no fallbacks
+            s = self.solver(2000)
+            s.add(z3.Not(ob.goal))
+            t0 = time.time()
+            r = s.check()
+            ob.time = time.time() - t0
+            self.solver_time += ob.time
+            ob.result = "proved" if r == z3.unsat else ("refuted" if r == z3.sat else "unknown")
+            return ob
         s = self.solver(self.opts.get("timeout_ms", 10000))
         s.add(z3.Not(ob.goal))
         t0 = time.time()
@@ -149,23 +159,23 @@ class Interp(Run, StmtMixin, ExprMixin, CallMixin, BuiltinMixin, LoopMixin, Spec
                 # quantifier-free part of the path condition: unsat there is
                 # still a proof; sat there is only a CANDIDATE counterexample
                 # (weak), which counts as a violation only if it replays natively.
-                s2 = z3.Solver()
-                s2.set("timeout", self.opts.get("timeout_ms", 10000))
-                for a in self.class_axioms():
-                    s2.add(a)
-                for p in self.pc:
-                    if not has_quantifier(p):
-                        s2.add(p)
-                s2.add(z3.Not(ob.goal))
-                r3 = s2.check()
-                if r3 == z3.unsat:
+                from .qinst import solve_by_instantiation
+
+                try:
+                    r3, m3 = solve_by_instantiation(self.class_axioms(), self.pc, ob.goal,
+                                                    self.opts.get("timeout_ms", 10000))
+                except z3.Z3Exception as e:  # pragma: no cover
+                    r3, m3 = "unknown", None
+                    ob.reason += f" / qinst: {e}"
+                if r3 == "unsat":
                     ob.result = "proved"
-                    ob.reason = "qf-subset"
-                elif r3 == z3.sat and not has_quantifier(ob.goal):
+                    ob.reason = "ground instantiation"
+                elif r3 == "sat":
                     ob.result = "refuted"
-                    ob.reason = "weak: counter-model of the quantifier-free part of the path condition"
-                    ob.model = self.extract_model(s2.model())
+                    ob.reason = "weak: counter-model of a ground instantiation of the quantified facts"
+                    ob.model = self.extract_model(m3)
                     ob.model["__weak__"] = True
+                    ob.model["__skolems__"] = skolem_values(m3)
         return ob
 
     def extract_model(self, m):
@@ -178,6 +188,19 @@ class Interp(Run, StmtMixin, ExprMixin, CallMixin, BuiltinMixin, LoopMixin, Spec
                     continue
                 v = m.eval(self.to_val(tv), model_completion=True)
                 out[name] = model_value(v)
+                if tv.hint == "dict":
+                    a = Val.a(tv.r)
+                    h0 = self.entry_heap
+                    ln = m.eval(z3.Select(h0.cur["dklen"], a), model_completion=True)
+                    if z3.is_int_value(ln) and 0 <= ln.as_long() <= 8:
+                        krow = z3.Select(h0.cur["dkey"], a)
+                        vrow = z3.Select(h0.cur["dval"], a)
+                        items = []
+                        for i in range(ln.as_long()):
+                            k = m.eval(z3.Select(krow, i), model_completion=True)
+                            items.append([model_value(k),
+                                          model_value(m.eval(z3.Select(vrow, k), model_completion=True))])
+                        out[name] = {"dict": items}
                 if tv.hint == "list":
                     # contents of a list parameter in the pre-state
                     a = Val.a(tv.r)
@@ -260,6 +283,10 @@ class Interp(Run, StmtMixin, ExprMixin, CallMixin, BuiltinMixin, LoopMixin, Spec
                     region_node = nd
                 elif isinstance(nd, ast.While) and "while:" + ast.unparse(nd.test) == rkey:
                     region_node = nd
+                elif isinstance(nd, ast.Assign) and rkind == "assign" and ast.unparse(nd.targets[0]) == rkey:
+                    region_node = nd
+                elif isinstance(nd, ast.If) and rkind == "if" and ast.unparse(nd.test) == rkey:
+                    region_node = nd
             if region_node is None:
                 raise LookupError(f"region {region} not found in {unit.target}")
             pnames = list(unit.params)
@@ -321,18 +348,57 @@ class Interp(Run, StmtMixin, ExprMixin, CallMixin, BuiltinMixin, LoopMixin, Spec
             self.outcome = ("exc", pr)
         self.post_obligations(fr)
 
+    def frame_obligation(self, env):
+        """FRAME: every location that existed at entry and is not listed in
+        `modifies` is unchanged (skolemised: one arbitrary location per array)."""
+        unit = self.unit
+        mods = []
+        for m in (unit.modifies or []):
+            mods.extend(self.eval_locs(m, env=dict(self.entry_env)))
+        from .heap import sel
+
+        h0, h1 = self.entry_heap, self.heap
+        a = fresh("fr_a", core.IntS)
+        for field, sort in core.HEAP_FIELDS.items():
+            if h0.cur[field].get_id() == h1.cur[field].get_id():
+                continue  # syntactically untouched
+            if field in core.NESTED:
+                k = fresh("fr_k", sort.range().domain())
+                idx = (a, k)
+            else:
+                idx = (a,)
+            facts = []
+            v1 = h1.read(field, idx, facts)
+            v0 = h0.read(field, idx, facts)
+            cs = []
+            for p in mods:
+                c = self.loc_match(p, field, idx)
+                if c is not None:
+                    cs.append(c)
+            pre = z3.And(a >= 0, a < self.A0, *([z3.Not(z3.Or(*cs))] if cs else []))
+            goal = z3.Implies(z3.And(pre, *facts), v1 == v0)
+            self.oblige("FRAME", f"{field}", goal,
+                        f"only {unit.modifies or 'nothing'} is modified ({field})", None, where="exit")
+
     def post_obligations(self, fr):
         unit = self.unit
         env = dict(self.entry_env)
-        if getattr(unit, "region", None):
-            for k, v in fr.vars.items():
+        for k, v in fr.vars.items():
+            env["final_" + k] = v  # value of a local / parameter at exit
+            if getattr(unit, "region", None):
                 env.setdefault(k, v)
-                env["final_" + k] = v
         kind, payload = self.outcome
+        if not (kind == "exc" and payload.implicit and not unit.wd):
+            self.check_preserved(unit.preserves, self.entry_heap.ver, "FRAME", "unit")
+            if not getattr(unit, "region", None) and unit.modifies != ["*"] and not unit.ghost.get("no_frame_check"):
+                self.frame_obligation(env)
         if kind == "ret":
             env["result"] = payload
             for i, cl in enumerate(unit.ensures):
                 lab, text, prop = named(cl)
+                only = self.opts.get("prop")
+                if only is not None and prop is not None and prop != only:
+                    continue
                 t, side = self.spec(text, env)
                 self.assume_all(side)
                 self.oblige("POST", lab or str(i), t, text, prop, where="return")
@@ -367,6 +433,9 @@ class Interp(Run, StmtMixin, ExprMixin, CallMixin, BuiltinMixin, LoopMixin, Spec
                 matched_any.append(cond)
                 for i, cl in enumerate(clauses):
                     lab, text, prop = named(cl)
+                    only = self.opts.get("prop")
+                    if only is not None and prop is not None and prop != only:
+                        continue
                     t, side = self.spec(text, env)
                     self.assume_all(side)
                     ob = Obligation(unit.name, "EXC", f"{k}.{lab or i}", prop,
@@ -388,6 +457,18 @@ class Interp(Run, StmtMixin, ExprMixin, CallMixin, BuiltinMixin, LoopMixin, Spec
                                 text=f"raises only {names}", where=f"raise ({pr.origin})")
                 self.solve(ob)
                 self.obligs.append(ob)
+
+
+def skolem_values(m):
+    out = {}
+    for d in m.decls():
+        nm = d.name()
+        if d.arity() == 0 and (nm.startswith("sk!") or nm.startswith("sk")):
+            try:
+                out[nm] = str(m[d])
+            except Exception:
+                pass
+    return out
 
 
 def has_quantifier(t):
@@ -442,7 +523,11 @@ class UnitResult:
         self.source_hash = ""
 
 
-def verify_unit(world, unit, opts):
+def verify_unit(world, unit, opts, start=None, split=None):
+    """Explore all paths of the unit.  `start`: script prefixes to explore
+    (default: the empty script = everything); `split`: stop as soon as that
+    many unexplored prefixes are pending and return them in res.remaining
+    (used to spread one big unit over worker processes)."""
     res = UnitResult(unit)
     t0 = time.time()
     try:
@@ -452,10 +537,14 @@ def verify_unit(world, unit, opts):
         res.errors.append(("locate", str(e)))
         res.wall = time.time() - t0
         return res
-    work = [[]]
+    work = [list(s) for s in (start or [[]])]
+    res.remaining = []
     max_paths = opts.get("max_paths", 4000)
     while work:
-        script = work.pop()
+        if split is not None and len(work) >= split:
+            res.remaining = work
+            break
+        script = work.pop(0) if split is not None else work.pop()
         if res.paths + res.ended >= max_paths:
             res.errors.append(("limit", f"more than {max_paths} paths"))
             break
